@@ -22,6 +22,9 @@ enum Stage {
     /// applied only when the victim holds keys at that point (client: it has emitted its
     /// ChangeCipherSpec; server: the ClientKeyExchange has been delivered to it)
     Boundary(u8),
+    /// A has called close(): its close_notify datagram is emitted and still in flight; forged
+    /// copies of it reach B first (B must stay Connected until the genuine one arrives)
+    ClosePending,
 }
 const STAGES: [Stage; 5] = [Stage::KeysMidHandshake, Stage::ServerConnected, Stage::BothConnected, Stage::AfterTraffic, Stage::AfterClose];
 
@@ -117,6 +120,10 @@ struct Obs {
     /// per handshake datagram (in delivery order): destination side, length, label, and whether
     /// (A, B) held keys when it was about to be delivered
     hs_dgrams: Vec<(u8, usize, String, [bool; 2])>,
+    close_dgram_len: usize,
+    /// victim's state immediately before and (after quiescence) immediately after the injection,
+    /// recorded for injections made ahead of a pending genuine datagram
+    inj_states: Option<(String, String)>,
 }
 
 fn sample(a: &End, b: &End, hist: &mut [Vec<String>; 2]) {
@@ -264,12 +271,15 @@ fn run(sc: Option<&Scenario>, seed: u64) -> Option<Obs> {
                         }
                         let injs = inject_p(st, &genuine_to, next.as_ref());
                         if !injs.is_empty() {
+                            let v: &End = if sc.as_ref().map(|s| s.victim) == Some(Side::A) { &a } else { &b };
+                            let before = sim::state_name(&v.dtls.get_state()).to_string();
                             for d in injs {
                                 obs.injected += 1;
                                 sim::deliver(&a, &b, &d, &mut buf).await;
                             }
                             tokio::time::sleep(Duration::from_millis(1)).await;
                             sample(&a, &b, &mut hist);
+                            obs.inj_states = Some((before, sim::state_name(&v.dtls.get_state()).to_string()));
                         }
                     }
                 }
@@ -329,10 +339,28 @@ fn run(sc: Option<&Scenario>, seed: u64) -> Option<Obs> {
             let _ = a.dtls.send(Bytes::from_static(GENUINE[2])).await;
             let _ = b.dtls.send(Bytes::from_static(GENUINE[3])).await;
             pump(&a, &b, &mut net_rx, &mut buf, 16, 50, &mut cap, &mut hist).await;
-            let is_close_stage = matches!(&sc, Some(s) if s.stage == Stage::AfterClose);
+            let is_close_stage = matches!(&sc, Some(s) if s.stage == Stage::AfterClose || s.stage == Stage::ClosePending);
             if is_close_stage || sc.is_none() {
                 // genuine close by A, then inject
                 a.dtls.close();
+                tokio::time::sleep(Duration::from_millis(1)).await;
+                sample(&a, &b, &mut hist);
+                if let Some(d) = sim::next_dgram(&mut net_rx, Duration::from_millis(200)).await {
+                    obs.close_dgram_len = d.data.len();
+                    let injs = inject_p(Stage::ClosePending, &genuine_to, Some(&d));
+                    if !injs.is_empty() {
+                        let before = sim::state_name(&b.dtls.get_state()).to_string();
+                        for x in injs {
+                            obs.injected += 1;
+                            sim::deliver(&a, &b, &x, &mut buf).await;
+                        }
+                        tokio::time::sleep(Duration::from_millis(1)).await;
+                        sample(&a, &b, &mut hist);
+                        obs.inj_states = Some((before, sim::state_name(&b.dtls.get_state()).to_string()));
+                    }
+                    cap.push(d.clone());
+                    sim::deliver(&a, &b, &d, &mut buf).await;
+                }
                 pump(&a, &b, &mut net_rx, &mut buf, 16, 200, &mut cap, &mut hist).await;
                 for d in inject(Stage::AfterClose, &genuine_to) {
                     obs.injected += 1;
@@ -384,11 +412,26 @@ fn judge(sc: &Scenario, o: &Obs, base: &Obs) -> Vec<(String, String)> {
     let v = sc.victim as usize;
     let cls: Vec<String> = sc.inj.iter().map(|i| i.class()).collect();
     let cls = cls.join("+");
-    // (1) everything handed to the upper layer is a payload the peer genuinely sent
+    // (1) everything handed to the upper layer is a payload the PEER genuinely sent to this side
+    // (A receives GENUINE[1] and [3], B receives [0] and [2]; a side's own record coming back is
+    // not one of them)
     for side in 0..2 {
         for p in &o.delivered[side] {
-            if !GENUINE.iter().any(|g| *g == &p[..]) {
-                out.push((format!("unauthenticated_payload_delivered;stage={:?};victim={};inj={cls}", sc.stage, sc.victim.name()), format!("side {} received bytes that no peer sent: {}", ["A", "B"][side], String::from_utf8_lossy(p))));
+            let from_peer = GENUINE.iter().enumerate().any(|(i, g)| i % 2 != side && *g == &p[..]);
+            if !from_peer {
+                out.push((format!("unauthenticated_payload_delivered;stage={:?};victim={};inj={cls}", sc.stage, sc.victim.name()), format!("side {} received bytes its peer never sent to it: {}", ["A", "B"][side], String::from_utf8_lossy(p))));
+            }
+        }
+    }
+    // (1b) a record that differs from every genuine record (bit flip, truncation, rewritten epoch,
+    // crafted) must be discarded: if the injection-free run delivers N payloads to a side, the run
+    // with such an injection delivers exactly the same N. Only the unmodified genuine record sent
+    // again (also from another address) may add a delivery - the statement promises no replay protection.
+    let only_modified = sc.inj.iter().all(|i| !matches!(i, Inj::Readdress));
+    if only_modified {
+        for side in 0..2 {
+            if o.delivered[side].len() > base.delivered[side].len() {
+                out.push((format!("altered_record_accepted;stage={:?};victim={};inj={cls}", sc.stage, sc.victim.name()), format!("side {} was handed {} payloads, {} without the injection: {:?}", ["A", "B"][side], o.delivered[side].len(), base.delivered[side].len(), o.delivered[side].iter().map(|p| String::from_utf8_lossy(p).to_string()).collect::<Vec<_>>())));
             }
         }
     }
@@ -400,6 +443,13 @@ fn judge(sc: &Scenario, o: &Obs, base: &Obs) -> Vec<(String, String)> {
     // the connection for one round trip is a state change even if a later flight re-opens it
     if o.state == base.state && o.hist != base.hist {
         out.push((format!("state_changed_transiently;stage={:?};victim={};inj={cls};history={}", sc.stage, sc.victim.name(), o.hist[v].join(">")), format!("state histories {:?}, without the injection {:?}", o.hist, base.hist)));
+    }
+    // (2c) ... and directly: the victim's state right after the injection (quiescent, the genuine
+    // datagram still withheld) is its state right before it
+    if let Some((before, after)) = &o.inj_states {
+        if before != after {
+            out.push((format!("state_changed_by_injection;stage={:?};victim={};inj={cls};from={before};to={after}", sc.stage, sc.victim.name()), format!("victim {} went {before} -> {after} on the injected record alone", sc.victim.name())));
+        }
     }
     // (3) genuine traffic is still accepted: every genuine payload of the baseline is still delivered
     for side in 0..2 {
@@ -610,7 +660,7 @@ fn main() {
             std::process::exit(if o.map_or(true, |o| !o.problems.is_empty()) { 1 } else { 0 });
         }
         let sc = scenario_from_json(r);
-        let base = baseline(sc.stage == Stage::AfterClose, cli.seed);
+        let base = baseline(matches!(sc.stage, Stage::AfterClose | Stage::ClosePending), cli.seed);
         let mut bad = false;
         for round in 0..2 {
             let o = run(Some(&sc), cli.seed);
@@ -668,6 +718,11 @@ fn main() {
             pending_flips += 1;
         }
     }
+    // every single-bit flip of A's genuine close_notify datagram, delivered to B ahead of the original
+    for bit in 0..base_close.close_dgram_len * 8 {
+        scenarios.push(Scenario { stage: Stage::ClosePending, victim: Side::B, inj: vec![Inj::FlipPending { bit, label: "A:close_notify(enc)".into() }] });
+        pending_flips += 1;
+    }
     let singles = scenarios.len();
     if thorough {
         // pairs: a crafted epoch-0 / alert record followed by each genuine-derived forgery class representative
@@ -705,7 +760,7 @@ fn main() {
         let Some(o) = o else {
             vh::machinery_failure(&format!("watchdog fired on {sc:?}"));
         };
-        let base = if sc.stage == Stage::AfterClose { &base_close } else { &base_open };
+        let base = if matches!(sc.stage, Stage::AfterClose | Stage::ClosePending) { &base_close } else { &base_open };
         let vs = judge(sc, o, base);
         outcomes.insert(format!("{:?}|{:?}|{}", o.state, o.delivered.iter().map(|d| d.len()).collect::<Vec<_>>(), vs.len()));
         if o.skipped_no_keys {
@@ -797,7 +852,7 @@ fn main() {
     rep.set("outbound_records_checked", out_records as u64);
     rep.set("genuine_record_len", glen as u64);
     rep.set("exhaustive", true);
-    rep.set("rule", "inbound: every (stage in {every quiescent datagram boundary of the handshake at which the victim holds keys, both connected, after traffic, after close_notify}) x (victim A|B) x (record of the catalog: content types {20,21,22,23,24,255} x epochs {0,1,2} x 4 payloads x 2 source addresses; every single-bit flip, every truncation, re-addressing, epoch rewrite of a genuine application record, the victim's own record reflected; every single-bit flip of each handshake datagram about to be delivered to a key-holding endpoint) injected once (thorough: also pairs); each history executed on two real DtlsTransports and compared with the injection-free run: only genuine payloads delivered, same final states AND same state history at every quiescent point, genuine traffic still delivered. outbound: every start order of 1..3 (thorough: 1..4) concurrent send() tasks x payload sizes {0,1,1200,1201,2400,3000}; every emitted datagram must be exactly one type-23 record with epoch>=1, <=1237 bytes, authenticating under the session keys, unique (epoch,seq), and the plaintexts must reassemble the submitted payloads. distinct_nontrivial = distinct (states, delivery counts, verdict count) outcomes");
+    rep.set("rule", "inbound: every (stage in {every quiescent datagram boundary of the handshake at which the victim holds keys, both connected, after traffic, after close_notify}) x (victim A|B) x (record of the catalog: content types {20,21,22,23,24,255} x epochs {0,1,2} x 4 payloads x 2 source addresses; every single-bit flip, every truncation, re-addressing, epoch rewrite of a genuine application record, the victim's own record reflected; every single-bit flip of each handshake datagram about to be delivered to a key-holding endpoint) injected once (thorough: also pairs); each history executed on two real DtlsTransports and compared with the injection-free run: only payloads the peer sent to that side delivered and not one delivery more than without the injection (except for an unmodified replay), same final states AND same state history at every quiescent point, genuine traffic still delivered. outbound: every start order of 1..3 (thorough: 1..4) concurrent send() tasks x payload sizes {0,1,1200,1201,2400,3000}; every emitted datagram must be exactly one type-23 record with epoch>=1, <=1237 bytes, authenticating under the session keys, unique (epoch,seq), and the plaintexts must reassemble the submitted payloads. distinct_nontrivial = distinct (states, delivery counts, verdict count) outcomes");
     rep.assume("concurrent send() tasks run on the single-threaded deterministic runtime: interleavings are at await-point granularity (start orders); pre-emption inside send_record between OS threads is not explored (sequence allocation is a single fetch_add)");
     rep.assume("a genuine record replayed unmodified (also from another address) may be delivered again: the statement does not promise replay protection");
     if outcomes.len() < 2 && rep.violation_count() == 0 {
@@ -822,6 +877,7 @@ fn scenario_from_json(r: &serde_json::Value) -> Scenario {
     let name = r["stage"].as_str().unwrap_or("");
     let stage = match name.strip_prefix("Boundary(").and_then(|x| x.strip_suffix(")")).and_then(|x| x.parse::<u8>().ok()) {
         Some(k) => Stage::Boundary(k),
+        None if name == "ClosePending" => Stage::ClosePending,
         None => STAGES.iter().copied().find(|s| format!("{s:?}") == name).unwrap_or_else(|| vh::machinery_failure("bad stage")),
     };
     let victim = if r["victim"] == "A" { Side::A } else { Side::B };
